@@ -384,7 +384,24 @@ package gts
 //@   ensures complete: forall x: covR(arg, x) ==> 0 <= Wf(x) && Wf(x) < len(ss) && inSeg(ss[Wf(x)][0], ss[Wf(x)][1], x)
 //@   ensures bounds: forall lo: forall hi: withinR(arg, lo, hi) ==> (forall k in 0..len(ss): lo <= ss[k][0] && ss[k][1] <= hi)
 //@   ensures hasSegR(arg) ==> len(ss) >= 1
+//@   ensures len(ss) == flatLen(arg)
 //@   assigns nothing
+
+// flattenRegion, one level: a segment gives itself with its ends in ascending order; a list of
+// regions gives as many segments as its parts give together (no part is skipped, none twice).
+//@ spec func flatLen(r Region) int uninterpreted
+//@ func flattenRegion@segment(arg Region) (ss []Segment)
+//@   prop C09 C15
+//@   requires is(arg, Segment)
+//@   ensures len(ss) == 1 && ss[0][0] == min(arg.(Segment)[0], arg.(Segment)[1]) && ss[0][1] == max(arg.(Segment)[0], arg.(Segment)[1])
+//@ func flattenRegion@regions(arg Region) (ss []Segment)
+//@   prop C09 C15
+//@   requires is(arg, Regions)
+//@   ghost in PRE(k int) int
+//@   requires PRE(0) == 0 && (forall k in 0..len(arg.(Regions)): PRE(k+1) == PRE(k) + flatLen(arg.(Regions)[k]))
+//@   ensures len(ss) == PRE(len(arg.(Regions)))
+//@   loop 1: invariant fresh(ss) && len(ss) == PRE(idx1)
+//@   loop 1: decreases len(arg.(Regions)) - idx1
 
 //@ func Minimize(arg Region) (ss []Segment)
 //@   prop C09 C15
